@@ -47,7 +47,7 @@ def json_text(v):
     return json.dumps(v, ensure_ascii=True, separators=(",", ":"))
 
 
-STRS = ["abc", "x<y", "", "a&b", "10", "5", "it's", "Zed", "\"q\"", "tail "]
+STRS = ["abc", "x<y", "", "a&b", "10", "5", "it's", "Zed", "\"q\"", "tail ", "Tom &amp;", "&lt;", "x&gt;", "&quot;", "&am"]
 
 
 def gen_scalar(rng, for_expr=False):
